@@ -193,7 +193,7 @@ theorem schema_spec_down (g : Globals) (hg : g.dialect = .mysql) (hio : g.ignore
           cases h : dbN.has td.name with
           | false => rfl
           | true => exact absurd ((has_iff dbN td.name).mp h) ((find_none_iff dbN td.name).mp hfN)
-        obtain ⟨i, td0, hi0, hn0, hact0, cs, is, hcs, his, hfs, hjc, hrun⟩ :=
+        obtain ⟨i, td0, hi0, hn0, hact0, cs, is, hcs, his, hfs, hjc, _, hrun⟩ :=
           loaded_table_spec g hg rc old dbO ho hpo heo mo hmo' td.name tbO hfO (hnofk tbO (List.mem_append_left _ (mem_of_find hfO)))
         have htd0 : td0 = ot := by
           refine eq_of_name_nodup (fun x : Table => x.name) hro.inv.tbls.nodup (List.mem_of_getElem? hi0) hot ?_
